@@ -143,12 +143,6 @@ type byRule struct {
 	Doc        string `json:"doc"`
 }
 
-type Outcome struct {
-	Violations []*Obligation
-	Known      []string
-	ExitCode   int
-}
-
 // Finish applies floors and known findings, writes evidence + replay files and prints the verdict lines.
 func (r *Report) Finish(verifDir string, p *Prog, wall float64, loadErr error) int {
 	evDir := filepath.Join(verifDir, "evidence")
